@@ -250,7 +250,19 @@ class SignAnalysis:
         if f == "tabulate":
             return self.sign(t.args[0], facts) | self.sign(t.args[2], facts)
         if f == "store":
-            return self.sign(t.args[0], facts) | self.sign(t.args[2], facts)
+            b_, m_, v_ = t.args
+            # x[mask(x)] = v with an element-wise mask computed from x itself: the elements that keep their value are those where the
+            # mask does not hold, so x is refined by the negated mask (x[~(x > 0)] = 0 is max(x, 0))
+            if T.fname(m_) in ("lt", "ge", "eq", "ne", "not_", "and_", "or_") and m_.has(b_):
+                return self.sign(b_, self.refine(facts, m_, False)) | self.sign(v_, facts)
+            return self.sign(b_, facts) | self.sign(v_, facts)
+        if f == "cumsum":
+            s = self.sign(t.args[0], facts)
+            if not s & NEG:
+                return NONNEG if s & POS else ZERO
+            if not s & POS:
+                return NONPOS if s & NEG else ZERO
+            return TOP
         if f in ("empty",):
             return BOT  # uninitialised: contributes nothing once fully overwritten
         if f in ("zeros",):
